@@ -13,7 +13,7 @@ import json
 import os
 
 import vlib
-from checks import brokerlib
+from checks import brokerlib, racelib
 
 GEN = ('CONSTANTS Sess = {%s} Msgs = {%s} MinId = 1 MaxId = 4 QoSOf <- GQoS Depth = %d\n'
        'SPECIFICATION GSpec\nCONSTRAINT Dump\nCHECK_DEADLOCK FALSE\n')
@@ -34,15 +34,22 @@ def scenario(h, early=False):
     ops = []
     for s in sess:
         ops.append({"op": "connect", "c": cn[s], "n": 1, "client": "sub-" + s, "ka": 600, "auto": "none"})
-        ops.append({"op": "sub", "c": cn[s], "id": 1, "fs": [{"f": ["q1", s], "q": 1}, {"f": ["q2", s], "q": 2}]})
+        ops.append({"op": "sub", "c": cn[s], "id": 1, "fs": [{"f": ["q1", s], "q": 1}, {"f": ["q2", s], "q": 2}] +
+                    ([{"f": ["q1", "both"], "q": 1}, {"f": ["q2", "both"], "q": 2}] if len(sess) > 1 else [])})
     ops.append({"op": "connect", "c": 9, "n": 1, "client": "pub", "ka": 600})
     ops.append({"op": "pub", "c": 9, "t": ["warmup"], "p": "w0", "q": 0, "id": 0})   # offset 0 is not special any more, but keep it apart
     pid = 10
     ended = set()
+    shared = {"m2"} if early else {"m1", "m3"}          # which messages go to both subscribers (two-subscriber scripts only)
     for o in h:
         if o["op"] == "deliver":
             pid += 1
-            ops.append({"op": "pub", "c": 9, "t": ["q%d" % o["q"], o["s"]], "p": "%s-%s" % (o["m"], o["s"]), "q": 1, "id": pid})
+            if len(sess) > 1 and o["m"] in shared:
+                # one message for both subscribers (consecutive recipients of one fan-out, same QoS): the script's responses are
+                # those of session o["s"]; the other one stays silent and is retransmitted to at the sweeps
+                ops.append({"op": "pub", "c": 9, "t": ["q%d" % o["q"], "both"], "p": "%s-%s" % (o["m"], o["s"]), "q": 1, "id": pid})
+            else:
+                ops.append({"op": "pub", "c": 9, "t": ["q%d" % o["q"], o["s"]], "p": "%s-%s" % (o["m"], o["s"]), "q": 1, "id": pid})
         elif o["op"] == "resp":
             ops.append({"op": "ackmsg", "c": cn[o["s"]], "p": "%s-%s" % (o["m"], o["s"]), "kind": o["kind"]})
         elif o["op"] == "strayack":
@@ -78,9 +85,16 @@ def check(run):
         raise vlib.Inconclusive("broker driver died: %s" % crashes[0][2][-2000:])
     v = vlib.Verdict(run)
     nev, nscn, validated, rejected, tstates = brokerlib.validate(run, "C03", scns, tpath, v)
+    # a recipient that vanishes while a publish for it is being handled (its teardown parked between leaving the local registry
+    # and losing its subscriptions): nothing is sent to it and no packet identifier stays held (the writer-level half of C06)
+    rn, rparked, rnev, rval, rrej, rts = racelib.check_family(
+        run, "C03", v, keep=lambda s: any(o["op"] == "race" and o["a"]["op"] in ("close", "send") for o in s["ops"]), tag="gone")
+    validated += rval
+    tstates += rts
     rc = v.finish()
     retx = sum(1 for h in hs if any(o["op"] == "sweep" for o in h))
     vlib.write_evidence(run, {
+        "vanishing_recipients": {"interleavings": rn, "parked_at_their_gate": rparked, "events": rnev, "rejections": rrej},
         "traces_validated_against_impl": validated,
         "evaluations": len(scns),
         "distinct_nontrivial": retx,
@@ -99,4 +113,7 @@ def check(run):
 
 
 def replay(run, path):
+    import json
+    if json.load(open(path)).get("kind") == "race":
+        return racelib.replay(run, "C03", path)
     return brokerlib.replay(run, "C03", path)
